@@ -4,11 +4,13 @@
   representation (property C10).
 -/
 import Algobra.Proofs.BPolyRefine
+import Algobra.Proofs.Order
 
 namespace Algobra
 namespace BPoly
 
 open AddMonoidAlgebra (single)
+open Algobra.Order
 
 variable {α : Type} {F : FOps α} {K : Type} [Field K]
 
@@ -153,6 +155,174 @@ theorem lcQuot_embed {p g : BPoly α} (hp : CV L p) (hg : CV L g) (o : Order)
     rw [e1]
     simp only
     rw [L.embed_mul _ _ hlp e2, e3, div_eq_mul_inv]
+
+/-! ### the no-wrap-around guard of a run -/
+
+/-- shifting `g` by `dd` leaves all exponents (and their weighted degrees) inside the machine word -/
+def ShiftNO (o : Order) (g : BPoly α) (dd : Deg) : Prop :=
+  ∀ d ∈ keys g, NoOverflow o (d.1 + dd.1, d.2 + dd.2)
+
+theorem ShiftNO.shiftOK {o : Order} {g : BPoly α} {dd : Deg} (h : ShiftNO o g dd) :
+    ShiftOK g dd := fun dc hdc =>
+  have := h dc.1 (List.mem_map_of_mem hdc)
+  ⟨this.1, this.2.1⟩
+
+/-- "no exponent wraps around during the run": mirrors `quoRemLoop` on the dividend; at every
+    division step (by `g`, shift `dd`) the shifted exponents of `g` do not overflow. -/
+def RunOK (F : FOps α) (o : Order) (ignore : Option Nat) (gs : List (BPoly α)) :
+    Nat → BPoly α → Prop
+  | 0, _ => True
+  | fuel + 1, p =>
+    if p.isEmpty then True
+    else match firstDiv o (ld o p) ignore gs 0 with
+      | some (_, g, dd) =>
+        ShiftNO o g dd ∧ RunOK F o ignore gs fuel (subShiftScale F p g dd (lcQuot F o p g))
+      | none => RunOK F o ignore gs fuel (erase p (ld o p))
+
+/-- degree invariant of the quotients: every term `t` of `qs_j` satisfies `t·lm(gs_j) ≤ m`
+    (and the product `t·gs_j` has no exponent overflow) -/
+def QOK (o : Order) (gs : List (BPoly α)) (m : Deg) (qs : List (BPoly α)) : Prop :=
+  ∀ (j : Nat) (q g : BPoly α), qs[j]? = some q → gs[j]? = some g → ∀ t ∈ keys q,
+    ShiftNO o g t ∧ o.cmp ((ld o g).1 + t.1, (ld o g).2 + t.2) m ≤ 0
+
+theorem QOK_init (o : Order) (gs : List (BPoly α)) (m : Deg) :
+    QOK o gs m (gs.map fun _ => ([] : BPoly α)) := by
+  intro j q g hq _ t ht
+  rw [List.getElem?_map] at hq
+  cases hg : gs[j]? with
+  | none => rw [hg] at hq; cases hq
+  | some g' => rw [hg] at hq; cases hq; cases ht
+
+/-- the leading exponent of a nonzero polynomial is one of its exponents -/
+theorem ld_mem_keys {o : Order} (hadm : Admissible o) {p : BPoly α} (hne : p ≠ [])
+    (hno : ∀ d ∈ keys p, NoOverflow o d) : ld o p ∈ keys p :=
+  ld_mem o p hne (fun d hd => cmp_zero_le' o hadm d (hno d hd))
+
+/-! ### keys after one step -/
+
+theorem getD_of_lt {β : Type} (l : List β) (i : Nat) (a : β) (h : i < l.length) : l.getD i a = l[i] := by
+  rw [List.getD_eq_getElem?_getD, List.getElem?_eq_getElem h, Option.getD_some]
+
+theorem mem_keys_incCoef {f : BPoly α} {d e : Deg} {v : α} (h : e ∈ keys (incCoef F f d v)) :
+    e ∈ keys f ∨ e = d :=
+  KeysIn_incCoef (P := fun e => e ∈ keys f ∨ e = d) (fun _ h => Or.inl h) (Or.inr rfl) v e h
+
+theorem mem_keys_subShiftScale {f g : BPoly α} {i e : Deg} {a : α} (hs : ShiftOK g i)
+    (h : e ∈ keys (subShiftScale F f g i a)) :
+    e ∈ keys f ∨ ∃ d ∈ keys g, e = (d.1 + i.1, d.2 + i.2) := by
+  refine KeysIn_subShiftScale (P := fun e => e ∈ keys f ∨ ∃ d ∈ keys g, e = (d.1 + i.1, d.2 + i.2))
+    i a (fun _ h => Or.inl h) ?_ e h
+  intro d hd
+  obtain ⟨dc, hdc, rfl⟩ := List.mem_map.1 hd
+  have := hs dc hdc
+  rw [w64_of_lt this.1, w64_of_lt this.2]
+  exact Or.inr ⟨dc.1, hd, rfl⟩
+
+/-! ### the main invariant -/
+
+theorem quoRemLoop_spec {o : Order} (hadm : Admissible o) {ignore : Option Nat}
+    {gs : List (BPoly α)} (hgs : ∀ g ∈ gs, CV L g) (m : Deg) :
+    ∀ (fuel : Nat) (p : BPoly α) (qs : List (BPoly α)) (r : BPoly α)
+      {qs' : List (BPoly α)} {r' : BPoly α},
+      WF L p → (∀ d ∈ keys p, NoOverflow o d ∧ o.cmp d m ≤ 0) →
+      (∀ q ∈ qs, WF L q) → WF L r → qs.length = gs.length → QOK o gs m qs →
+      RunOK F o ignore gs fuel p →
+      quoRemLoop F o ignore gs fuel p qs r = some (qs', r') →
+      (∀ q ∈ qs', WF L q) ∧ WF L r' ∧ qs'.length = gs.length ∧
+      toMv L p + dot L qs gs + toMv L r = dot L qs' gs + toMv L r' ∧
+      (∀ d ∈ keys r', d ∈ keys r ∨ (NoOverflow o d ∧ o.cmp d m ≤ 0 ∧
+          ∀ j g, gs[j]? = some g → ignore ≠ some j → subDegs d (ld o g) = none)) ∧
+      QOK o gs m qs' := by
+  have T := cmp_isTot o
+  intro fuel
+  induction fuel with
+  | zero => intro p qs r qs' r' _ _ _ _ _ _ _ h; simp [quoRemLoop] at h
+  | succ fuel ih =>
+    intro p qs r qs' r' hp hpk hqs hr hlen hq hrun h
+    rw [quoRemLoop] at h
+    by_cases hpe : p.isEmpty = true
+    · rw [if_pos hpe] at h
+      simp only [Option.some.injEq, Prod.mk.injEq] at h
+      obtain ⟨rfl, rfl⟩ := h
+      have : p = [] := List.isEmpty_iff.1 hpe
+      subst this
+      exact ⟨hqs, hr, hlen, by simp, fun d hd => Or.inl hd, hq⟩
+    · rw [if_neg hpe] at h
+      rw [RunOK, if_neg hpe] at hrun
+      have hpne : p ≠ [] := fun h0 => hpe (List.isEmpty_iff.2 h0)
+      have hldm : ld o p ∈ keys p := ld_mem_keys hadm hpne (fun d hd => (hpk d hd).1)
+      obtain ⟨hldno, hldle⟩ := hpk _ hldm
+      simp only at h
+      cases hfd : firstDiv o (ld o p) ignore gs 0 with
+      | none =>
+        rw [hfd] at h hrun
+        simp only at h hrun
+        have hc := coef_valid L hp.cv (ld o p)
+        obtain ⟨c1, c2, c3, c4, c5, c6⟩ := ih (erase p (ld o p)) qs
+          (incCoef F r (ld o p) (coef F p (ld o p))) (WF_erase L hp _)
+          (fun d hd => hpk d ((mem_keys_erase p _ d).1 hd).1) hqs (WF_incCoef L hr _ hc) hlen hq
+          hrun h
+        refine ⟨c1, c2, c3, ?_, ?_, c6⟩
+        · rw [← c4, toMv_erase L hp, toMv_incCoef L hr _ hc]; ring
+        · intro d hd
+          rcases c5 d hd with h1 | h1
+          · rcases mem_keys_incCoef h1 with h2 | rfl
+            · exact Or.inl h2
+            · refine Or.inr ⟨hldno, hldle, fun j g hj hig => ?_⟩
+              exact firstDiv_none gs 0 hfd j g hj (by rwa [Nat.zero_add])
+          · exact Or.inr h1
+      | some x =>
+        obtain ⟨i, g, dd⟩ := x
+        rw [hfd] at h hrun
+        simp only at h hrun
+        obtain ⟨hsh, hrun'⟩ := hrun
+        obtain ⟨-, hgi, hig, hsd⟩ := firstDiv_some gs 0 hfd
+        rw [Nat.sub_zero] at hgi
+        have hcg : CV L g := hgs g (List.mem_of_getElem? hgi)
+        have hi : i < qs.length := by
+          rw [hlen]; exact (List.getElem?_eq_some_iff.1 hgi).1
+        have hdd : ld o p = ld o g + dd := (subDegs_eq_some_iff _ _ _).1 hsd
+        have hdd' : ((ld o g).1 + dd.1, (ld o g).2 + dd.2) = ld o p := by rw [hdd]; rfl
+        have htv := lcQuot_valid L hp.cv hcg o
+        obtain ⟨w1, e1⟩ := subShiftScale_spec L dd hp hcg htv hsh.shiftOK
+        have hqi : WF L (qs.getD i []) := by
+          rw [getD_of_lt _ _ _ hi]; exact hqs _ (List.getElem_mem hi)
+        obtain ⟨w2, e2⟩ := incCoef_spec L hqi dd htv
+        -- keys of the new dividend
+        have hpk' : ∀ d ∈ keys (subShiftScale F p g dd (lcQuot F o p g)),
+            NoOverflow o d ∧ o.cmp d m ≤ 0 := by
+          intro d hd
+          rcases mem_keys_subShiftScale hsh.shiftOK hd with h1 | ⟨e, he, rfl⟩
+          · exact hpk d h1
+          · refine ⟨hsh e he, ?_⟩
+            have hcmp := cmp_add' o e (ld o g) dd (hsh e he) (by rw [hdd']; exact hldno)
+            have hle : o.cmp e (ld o g) ≤ 0 := ld_ge o g e he
+            rw [hdd'] at hcmp
+            exact T.le_trans (by rw [hcmp]; exact hle) hldle
+        -- the updated quotients
+        have hqs' : ∀ q ∈ qs.set i (incCoef F (qs.getD i []) dd (lcQuot F o p g)), WF L q := by
+          intro q hq'
+          rcases List.mem_or_eq_of_mem_set hq' with h1 | rfl
+          · exact hqs q h1
+          · exact w2
+        have hq' : QOK o gs m (qs.set i (incCoef F (qs.getD i []) dd (lcQuot F o p g))) := by
+          intro j q g' hj hg' t ht
+          by_cases hji : i = j
+          · subst hji
+            rw [List.getElem?_set_self hi] at hj
+            cases hj
+            rw [hgi] at hg'; cases hg'
+            rcases mem_keys_incCoef ht with h1 | rfl
+            · refine hq i _ g ?_ hgi t h1
+              rw [getD_of_lt _ _ _ hi]; exact List.getElem?_eq_getElem hi
+            · exact ⟨hsh, by rw [hdd']; exact hldle⟩
+          · rw [List.getElem?_set_ne hji] at hj
+            exact hq j q g' hj hg' t ht
+        obtain ⟨c1, c2, c3, c4, c5, c6⟩ := ih _ _ r w1 hpk' hqs' hr
+          (by rw [List.length_set]; exact hlen) hq' hrun' h
+        refine ⟨c1, c2, c3, ?_, c5, c6⟩
+        rw [← c4, e1, dot_set L qs gs i g _ hi hgi, e2]
+        ring
 
 end BPoly
 end Algobra
